@@ -6,8 +6,26 @@ from props import corpus, uni
 STR_FIELDS = ["name", "inline", "inline_flattened", "decl", "decl_concrete", "ident", "output_path", "docs", "export_to_string"]
 
 
+def inventory_delta(ctx):
+    """when `C13_inventory` no longer checks: say which (file, construct) counts differ from the reviewed allow-list, so that the
+    replay names what has to be reviewed (a count can also change through a harmless rewrite — then the allow-list is updated)"""
+    import re as _re
+    try:
+        inv = {(a, b): c for a, b, c in json.load(open(os.path.join(vlib.LEAN, "TsRsVerif", "Generated", "tables.json")))["order_inventory"]}
+        src = open(os.path.join(vlib.LEAN, "TsRsVerif", "Props", "C13.lean")).read()
+        body = src[src.index("def orderAllowList"):src.index("theorem C13_inventory")]
+        allow = {(a, b): int(c) for a, b, c in _re.findall(r'\("([^"]+)",\s*"([^"]+)",\s*(\d+)\)', body)}
+    except (OSError, ValueError, KeyError):
+        return
+    delta = [f"{k[0]}: {k[1]} {allow.get(k, 0)} -> {inv.get(k, 0)}" for k in sorted(set(inv) | set(allow)) if inv.get(k, 0) != allow.get(k, 0)]
+    if delta:
+        ctx.broken.append("theorem C13_inventory (inventory of hash containers / environment reads / thread primitives = reviewed allow-list) no longer checks; "
+                          "occurrences that changed: " + "; ".join(delta[:12]))
+
+
 def run(ctx):
     proof = vlib.lean_check(ctx)
+    inventory_delta(ctx)
     g = gen_corpus.Gen(random.Random(ctx.seed * 7919 + 13))
     n = 14 if ctx.quick else 120
     programs = [g.program(i) for i in range(n)]
